@@ -18,6 +18,8 @@
    `noinit` skips the sexp_scheme_init() call that the documented embedding protocol (doc/chibi.scrbl, main())
    performs once before any context exists; used only to probe the first-use race of the init flags.
 
+           embed_c13 run   <specfile> stdports     as run, every context gets sexp_load_standard_ports(ctx,NULL,stdin,stdout,stderr,1);
+                                                   a final line "S stdfds ok|FAIL <mask>" says whether descriptors 0 1 2 still are what they were
            embed_c13 ops   <script> <capture prefix>   scripted multi-context run (round 2), see "ops" below
 
    probe mode prints one line per probe:  P <name> ok|FAIL <detail>
@@ -180,12 +182,15 @@ static sexp new_context (long heapsize) {
   return ctx;
 }
 
+static int std_ports;   /* run mode (round 2): every job loads the standard ports as doc/chibi.scrbl shows (no_close = 1) */
+
 static char *run_one (const char *text, long heapsize) {
   char why[200], *s, *out;
   long nobj;
   sexp ctx = new_context(heapsize);
   sexp_gc_var1(res);
   if (!ctx) return dupstr("NOCTX 0 -");
+  if (std_ports) sexp_load_standard_ports(ctx, NULL, stdin, stdout, stderr, 1);
   sexp_gc_preserve1(ctx, res);
   res = eval_all(ctx, text);
   s = show(ctx, res);
@@ -618,6 +623,16 @@ int main (int argc, char **argv) {
     /* workloads listed in the spec run sequentially in fresh contexts while nothing else is alive */
     return r;
   }
+  std_ports = argc > 3 && strcmp(argv[3], "stdports") == 0;
+  {
+    char before[3][300], after[300], path[32];
+    int k, bad = 0;
+    ssize_t n;
+    for (k = 0; k < 3; k++) {
+      snprintf(path, sizeof(path), "/proc/self/fd/%d", k);
+      n = readlink(path, before[k], sizeof(before[k]) - 1);
+      before[k][n < 0 ? 0 : n] = 0;
+    }
   pthread_barrier_init(&barrier, NULL, nthr);
   for (i = 0; i < nthr; i++)
     if (pthread_create(&thrs[i].th, NULL, thread_main, &thrs[i])) { perror("pthread_create"); return 2; }
@@ -626,5 +641,15 @@ int main (int argc, char **argv) {
   for (i = 0; i < nthr; i++)
     for (j = 0; j < thrs[i].nj; j++)
       printf("R %d %d %d %s\n", i, j, thrs[i].ids[j], thrs[i].out[j] ? thrs[i].out[j] : "MISSING 0 -");
+    /* the host's standard descriptors after every context was destroyed (the report itself needs descriptor 1:
+       if it is gone the parent sees no output at all) */
+    for (k = 0; k < 3; k++) {
+      snprintf(path, sizeof(path), "/proc/self/fd/%d", k);
+      n = readlink(path, after, sizeof(after) - 1);
+      after[n < 0 ? 0 : n] = 0;
+      if (strcmp(after, before[k]) != 0) bad |= 1 << k;
+    }
+    printf("S stdfds %s %d\n", bad ? "FAIL" : "ok", bad);
+  }
   return 0;
 }
